@@ -203,6 +203,27 @@ def manufactured_deck(rnd, nslides=3):
         data = renumber_rids(data, src, rnd.choice(["shifted", "gap", "gap", "foreign"]), rnd)
     if rnd.random() < 0.5:
         data = graft_foreign_parts(data, rnd)
+    if rnd.random() < 0.5:
+        data = respell_targets(data, rnd)
+    if rnd.random() < 0.5:
+        # slide ids not ascending in presentation order, the highest not last (a later slide was dragged to the front)
+        pk = opcx.Pkg.from_bytes(data)
+        pres = [r_.target for r_ in pk.rels("/") if r_.type == opcx.RT_OFFICE_DOCUMENT][0]
+        root = etree.fromstring(pk.members[pres[1:]], opcx.PLAIN)
+        sld = root.findall("{%s}sldIdLst/{%s}sldId" % (P, P))
+        ids = sorted((el.get("id") for el in sld), key=int, reverse=True)
+        if len(ids) > 1:
+            tail = ids[1:]
+            rnd.shuffle(tail)
+            for el, v in zip(sld, [ids[0]] + tail if rnd.random() < 0.5 else tail[:1] + [ids[0]] + tail[1:]):
+                el.set("id", v)
+            out = dict(pk.members)
+            out[pres[1:]] = etree.tostring(root, xml_declaration=True, encoding="UTF-8", standalone=True)
+            buf = io.BytesIO()
+            with zipfile.ZipFile(buf, "w", zipfile.ZIP_DEFLATED) as zf:
+                for name_, blob_ in out.items():
+                    zf.writestr(name_, blob_)
+            data = buf.getvalue()
     return data, nums
 
 
@@ -263,6 +284,47 @@ def graft_foreign_parts(data, rnd):
             )
             etree.SubElement(ct, CT + "Override", PartName="/customXml/itemProps1.xml", ContentType="application/vnd.openxmlformats-officedocument.customXmlProperties+xml")
     out["[Content_Types].xml"] = etree.tostring(ct, xml_declaration=True, encoding="UTF-8", standalone=True)
+    buf = io.BytesIO()
+    with zipfile.ZipFile(buf, "w", zipfile.ZIP_DEFLATED) as zf:
+        for name_, blob_ in out.items():
+            zf.writestr(name_, blob_)
+    return buf.getvalue()
+
+
+def respell_targets(data, rnd, share=0.35):
+    """Some internal relationship Targets re-spelt in another form OPC allows for the same part: absolute ('/ppt/media/image1.png'),
+    with a leading './', or up to the parent directory and down again."""
+    pk = opcx.Pkg.from_bytes(data)
+    out = dict(pk.members)
+    for name, blob in pk.members.items():
+        d, f = posixpath.split(name)
+        if not (f.endswith(".rels") and posixpath.basename(d) == "_rels"):
+            continue
+        src_dir = posixpath.dirname(d)
+        src = "/" if name == "_rels/.rels" else "/" + (src_dir + "/" if src_dir else "") + f[: -len(".rels")]
+        root = etree.fromstring(blob, opcx.PLAIN)
+        hit = False
+        for rel in root.iter("{%s}Relationship" % opcx.NS_PR):
+            if rel.get("TargetMode") == "External" or rnd.random() > share:
+                continue
+            tgt = opcx.resolve(src, rel.get("Target"))
+            if tgt[1:] not in pk.members:
+                continue
+            how = rnd.choice(["abs", "abs", "dot", "updown"])
+            base = "/" if src == "/" else posixpath.dirname(src)
+            relref = tgt[1:] if base == "/" else posixpath.relpath(tgt, base)
+            if how == "abs":
+                new = tgt
+            elif how == "dot":
+                new = "./" + relref
+            else:
+                segs = relref.split("/")
+                new = (segs[0] + "/../" + relref) if len(segs) > 1 and segs[0] != ".." else "./" + relref
+            if opcx.resolve(src, new) == tgt:
+                rel.set("Target", new)
+                hit = True
+        if hit:
+            out[name] = etree.tostring(root, xml_declaration=True, encoding="UTF-8", standalone=True)
     buf = io.BytesIO()
     with zipfile.ZipFile(buf, "w", zipfile.ZIP_DEFLATED) as zf:
         for name_, blob_ in out.items():
@@ -518,6 +580,7 @@ class Run:
             if root.tag not in ("{%s}sld" % P, "{%s}sldLayout" % P, "{%s}sldMaster" % P, "{%s}notes" % P, "{%s}notesMaster" % P):
                 continue
             ids = xp(root, "//p:cNvPr[not(ancestor::p:oleObj and @id='0')]/@id")  # the icon picture nested in p:oleObj carries id=0 by convention (any other id it carries counts)
+            ids = [str(int(i)) if i.isdigit() else i for i in ids]  # '003' and '3' are one id
             dups = {i for i, c in Counter(ids).items() if c > 1}
             known = self.id_dups.setdefault(part, None)
             if known is None:
@@ -535,7 +598,7 @@ class Run:
         sldIdLst = prs.part._element.find("{%s}sldIdLst" % P)
         cur = {}
         if sldIdLst is not None:
-            vals = [s.get("id") for s in sldIdLst]
+            vals = [str(int(s.get("id"))) if (s.get("id") or "").isdigit() else s.get("id") for s in sldIdLst]
             for v, c in Counter(vals).items():
                 if c > 1 and v not in self.sld_dups:
                     self.sld_dups.add(v)
